@@ -12,7 +12,7 @@ From Qv Require Import Common.Bytes Gen.GenNetio Gen.GenSession Model.NetRead Mo
       a message whose transmitted size is within the limit is never refused for size;
     - it is refused as looping only when MAXHOPS+1 Received: lines were seen, all in the header; a message that is
       handed over has at most MAXHOPS of them in its header (lines of the body are not counted). *)
-Theorem C15_data_limits : forall fuel o wfail r trace d r', rstate_ok r -> data_loop fuel o wfail r trace = (d, r') ->
+Theorem C15_data_limits : forall fuel o dc r trace d r', rstate_ok r -> data_loop fuel o dc r trace = (d, r') ->
   match d with
   | D_eod msg sz seen =>
       msg = trace ++ stored seen
@@ -52,8 +52,8 @@ Proof. repeat split; reflexivity. Qed.
 Print Assumptions C15_constants.
 
 Example C15_nonvacuous :
-  let o := {| o_helo := fun _ => true; o_addr := fun _ _ => AP_nobracket; o_ext := fun _ => Ext_ok 0 0; o_relay := 0%Z;
-              o_mx := fun _ => 0; o_qq := fun _ => QQ_ok; o_databytes := 0%N; o_liphost := []; o_trace := fun _ _ _ _ _ => [] |} in
+  let o := {| o_helo := fun _ => true; o_addr := fun _ _ => AP_nobracket; o_ext := fun _ => Ext_ok 0 0 None; o_relay := 0%Z;
+              o_mx := fun _ => 0; o_qq := fun _ => QQ_ok; o_databytes := 0%N; o_liphost := []; o_check2822 := false; o_trace := fun _ _ _ _ _ => [] |} in
   let bad := [70; 79; 79; 13; 10]%N in
   run_session o [bad; bad; bad; bad; bad; bad; bad; bad]
   = [Reply 220; Note NBad; Reply 500; Note NBad; Reply 500; Note NBad; Reply 500; Note NBad; Reply 500;
